@@ -25,9 +25,9 @@ end
 /-- M1 validity (tags, ranges, 32-bit lengths) and UTF-8 text -/
 def lvalidB (i : TItem) : Bool := i.validB && textOkB i
 
-/-- **the domain of the round trip**: the request is in the encoder's domain (`okRequest`) and its tree can be
-written (every length fits the 32-bit length field, `lvalidB`) -/
-def Encodable (r : Request) : Prop := okRequest r = true ∧ lvalidB (encRequest r) = true
+/-- **the domain of the round trip**: the request is in the encoder's domain (`okRequest`) and its frame can be
+written at all (its length fits the 32-bit length field of the outermost structure) -/
+def Encodable (r : Request) : Prop := okRequest r = true ∧ (requestBytes r).length < 2 ^ 32
 
 instance (r : Request) : Decidable (Encodable r) := by unfold Encodable; exact inferInstance
 
@@ -135,14 +135,12 @@ theorem lparse_list : ∀ (ks : List TItem), validList ks → textOkListB ks = t
 end
 
 /-- **the lenient reader gives back the tree of every valid request structure** -/
-theorem lenientTop_encode (t : Nat) (ks : List TItem) (h : lvalidB (.struct t ks) = true) :
-    lenientTop (encode (.struct t ks)) = .struct t ks := by
-  simp only [lvalidB, Bool.and_eq_true] at h
-  have hv := validB_sound _ h.1
+theorem lenientTop_encode (t : Nat) (ks : List TItem) (hv : (Item.struct t ks).Valid)
+    (ht : textOkB (.struct t ks) = true) : lenientTop (encode (.struct t ks)) = .struct t ks := by
   have hv' : tagOk t = true ∧ validList ks ∧ (encodeList ks).length < 256 ^ 4 := by
     simpa only [Item.Valid] using hv
   obtain ⟨htag, hks, hlen⟩ := hv'
-  have htk : textOkListB ks = true := by simpa only [textOkB] using h.2
+  have htk : textOkListB ks = true := by simpa only [textOkB] using ht
   unfold lenientTop
   simp only [encode]
   rw [splitHeader_header _ _ _ _ (tagOk_lt t htag) (by decide) hlen]
@@ -317,5 +315,54 @@ theorem mapD_map {α β γ} (g : β → D γ) (f : α → β) (h : α → γ) (l
     simp only [List.map_cons]
     rw [mapD]
     simp only [hf a List.mem_cons_self, ih (fun x hx => hf x (List.mem_cons_of_mem _ hx))]
+
+/-! ### attribute names -/
+
+/-- the member name of every `enums.AttributeType` is the normalised wire name (what `Attribute.read` computes) -/
+theorem attributeTypes_norm : attributeTypes.all (fun p => normName p.2.1 == p.1) = true := by decide +kernel
+
+/-- **the reader looks up the class the writer used**: for an ASCII member value of `enums.AttributeType` the factory
+call of `Attribute.read` (by normalised name) yields the value class of `create_attribute` -/
+theorem specOfName_of_specOf (name : String) (sp : VSpec) (ha : okText name = true) (h : specOf name = some sp) :
+    specOfName name = .ok sp := by
+  unfold specOf memberOf at h
+  cases hf : attributeTypes.find? (fun p => p.2.1 == name) with
+  | none => rw [hf] at h; cases h
+  | some p =>
+    rw [hf] at h
+    simp only [Option.map_some] at h
+    have hmem := List.mem_of_find?_eq_some hf
+    have hp := List.find?_some hf
+    simp only [beq_iff_eq] at hp
+    have hn := List.all_eq_true.mp attributeTypes_norm p hmem
+    simp only [beq_iff_eq] at hn
+    rw [hp] at hn
+    unfold specOfName
+    simp only [okText] at ha
+    simp only [ha, Bool.not_true, Bool.false_eq_true, ↓reduceIte, hn, h]
+
+theorem lookup_mem' {β} (l : List (String × β)) (k : String) (v : β) (h : l.lookup k = some v) : (k, v) ∈ l := by
+  induction l with
+  | nil => simp only [List.lookup] at h; cases h
+  | cons p ps ih =>
+    obtain ⟨a, b⟩ := p
+    simp only [List.lookup] at h
+    split at h
+    · rename_i heq
+      simp only [beq_iff_eq] at heq
+      simp only [Option.some.injEq] at h
+      subst heq; subst h; exact List.mem_cons_self
+    · exact List.mem_cons_of_mem _ (ih h)
+
+/-- `enums.attribute_name_tag_table` maps into `enums.Tags`, and no two names share a tag -/
+theorem nameTags_sound : attributeNameTags.all (fun p => allTags.contains p.2 && nameOfTag p.2 == some p.1) = true := by
+  decide +kernel
+
+/-- `convert_attribute_tag_to_name` inverts `convert_attribute_name_to_tag` -/
+theorem nameOfTag_tagOfName (name : String) (t : Nat) (h : tagOfName name = some t) :
+    allTags.contains t = true ∧ nameOfTag t = some name := by
+  have hm := lookup_mem' _ _ _ h
+  have := List.all_eq_true.mp nameTags_sound _ hm
+  simpa only [Bool.and_eq_true, beq_iff_eq] using this
 
 end Kmip.EncodeRequest
